@@ -191,39 +191,64 @@ func checkC05(c *core.Ctx, r *core.Report) {
 		}
 		return false
 	}
-	// blocks where the sort mode is known to be neither recentFirst nor recentLast
-	orderedModeExcluded := func(b *ssa.BasicBlock) bool {
+	// blocks (and edges) where the sort mode is known to be neither recentFirst nor recentLast
+	// modeTest reads a block's terminating `sortMode == k` / `sortMode != k` test and returns k and the
+	// successor index taken when the mode EQUALS k.
+	modeTest := func(b *ssa.BasicBlock) (k int64, eqSucc int, ok bool) {
+		ifi, isIf := core.LastIf(b)
+		if !isIf {
+			return 0, 0, false
+		}
+		bo, isBin := ifi.Cond.(*ssa.BinOp)
+		if !isBin || (bo.Op != token.EQL && bo.Op != token.NEQ) {
+			return 0, 0, false
+		}
+		x, y := bo.X, bo.Y
+		if _, isConst := x.(*ssa.Const); isConst {
+			x, y = y, x
+		}
+		ld, isLd := x.(*ssa.UnOp)
+		if !isLd {
+			return 0, 0, false
+		}
+		fa, isFa := ld.X.(*ssa.FieldAddr)
+		if !isFa || core.FieldOfAddr(fa) != sortMode {
+			return 0, 0, false
+		}
+		k, isK := core.ConstIntValue(y)
+		if !isK {
+			return 0, 0, false
+		}
+		if bo.Op == token.NEQ {
+			return k, 1, true
+		}
+		return k, 0, true
+	}
+	learn := func(excl map[int64]bool, from, to *ssa.BasicBlock) {
+		k, eqSucc, ok := modeTest(from)
+		if !ok || from.Succs[0] == from.Succs[1] {
+			return
+		}
+		if from.Succs[1-eqSucc] == to {
+			excl[k] = true
+		}
+		if from.Succs[eqSucc] == to && k != recentFirst && k != recentLast {
+			excl[recentFirst], excl[recentLast] = true, true
+		}
+	}
+	// edge == nil: facts that hold in b; otherwise facts that hold on the edge b -> edge
+	orderedModeExcluded := func(b *ssa.BasicBlock, edge *ssa.BasicBlock) bool {
 		excl := map[int64]bool{}
+		if edge != nil {
+			learn(excl, b, edge)
+		}
 		for x := b; x != nil; x = x.Idom() {
 			idom := x.Idom()
 			if idom == nil {
 				break
 			}
-			ifi, ok := core.LastIf(idom)
-			if !ok {
-				continue
-			}
-			bo, ok := ifi.Cond.(*ssa.BinOp)
-			if !ok || bo.Op != token.EQL {
-				continue
-			}
-			ld, ok := bo.X.(*ssa.UnOp)
-			if !ok {
-				continue
-			}
-			fa, ok := ld.X.(*ssa.FieldAddr)
-			if !ok || core.FieldOfAddr(fa) != sortMode {
-				continue
-			}
-			k, ok := core.ConstIntValue(bo.Y)
-			if !ok {
-				continue
-			}
-			if idom.Succs[1] == x && len(x.Preds) == 1 {
-				excl[k] = true
-			}
-			if idom.Succs[0] == x && len(x.Preds) == 1 && k != recentFirst && k != recentLast {
-				excl[recentFirst], excl[recentLast] = true, true
+			if len(x.Preds) == 1 {
+				learn(excl, idom, x)
 			}
 		}
 		return excl[recentFirst] && excl[recentLast]
@@ -255,14 +280,14 @@ func checkC05(c *core.Ctx, r *core.Report) {
 				bad = u
 			case *ssa.Phi:
 				for i, e := range x.Edges {
-					if e == raw && !orderedModeExcluded(x.Block().Preds[i]) {
+					if e == raw && !orderedModeExcluded(x.Block().Preds[i], x.Block()) {
 						bad = u
 					}
 				}
 			case *ssa.MakeInterface:
 				// logging argument
 			default:
-				if !orderedModeExcluded(u.Block()) {
+				if !orderedModeExcluded(u.Block(), nil) {
 					bad = u
 				}
 			}
